@@ -117,6 +117,7 @@ class Obs(object):
     def __init__(self):
         self.labels = []
         self.nontrivial = False
+        self.known_detail = None
 
     def label(self, *names):
         for n in names:
